@@ -27,6 +27,20 @@ BLOCKING = re.compile(r"^crossbeam_channel::Receiver::<T>::(recv|recv_timeout|re
                       r"|^std::thread::(sleep|park|park_timeout)$|^std::sync::mpsc::Receiver::<T>::(recv|iter)|Condvar::wait")
 
 
+def _cmp_says(g, idx):
+    """a comparison guard (path, op, constant, truth ..) that holds exactly when the value equals idx"""
+    try:
+        op, k, truth = g[1], str(g[2]), g[-1]
+    except Exception:
+        return False
+    k = re.sub(r'_?[iu](8|16|32|64|128|size)$', '', k)
+    if op in ('==', 'Eq', 'eq'):
+        return k == str(idx) and truth is True
+    if op in ('!=', 'Ne', 'ne'):
+        return k == str(idx) and truth is False
+    return False
+
+
 def has_cycle(b, removed_blocks, removed_edges):
     live = b.reachable([0], removed_edges=removed_edges, removed_blocks=removed_blocks)
     color = {}
@@ -165,6 +179,16 @@ def run(ctx):
         regd = sorted(rx_of(c.args[1]) for c in regs)
         rcv = sorted({rx_of(r.args[0]) for r in recvs})
         R1.check(regd == rcv and len(rcv) == 2, cfg, TH, 'select-registers-both-receivers', 'Select must wait on exactly the receivers that are polled (registered %s, polled %s)' % (regd, rcv), b.loc())
+        # the events channel is polled exactly when Select::ready named its operation (operations are numbered in the order
+        # they were registered); polling it on any other condition leaves a ready channel unread -> ready() returns at once, for ever
+        ev = [r for r in recvs if 'Events' in ' '.join(r.callee.args or []) + (r.args[0]['place']['ty'] if r.args and r.args[0]['k'] in ('copy', 'move') else '')]
+        order = [rx_of(c.args[1]) for c in sorted(regs, key=lambda c: (0 if b.dominates(c.bb, regs[0].bb) else 1, c.bb))]
+        if len(ev) == 1 and len(regs) == 2:
+            first = regs[0] if b.dominates(regs[0].bb, regs[1].bb) else regs[1]
+            idx = 0 if rx_of(first.args[1]) == rx_of(ev[0].args[0]) else 1
+            cg = [x for x in common.comparison_guards(b, ev[0].bb) if (x[0] or [None])[0] == 'call@bb%d' % ready[0].bb]
+            okr = all(x[1] == 'Eq' and str(x[2]) == str(idx) for x in cg)
+            R1.check(okr, cfg, TH, 'events-polled-when-their-operation-is-ready', 'events.try_recv() must run when Select::ready returned the index of the events operation (%d); it is guarded by %s' % (idx, cg), ev[0].loc())
         # R2
         for r in recvs:
             ap = b.access_path(r.args[0]) or ['?']
